@@ -287,8 +287,9 @@ def prove_same(ctx, rule, key, an, got, want, where, note):
     got = _t(got); want = _t(want)
     if got == want:
         ctx.ok(rule, key, '%s :: %s (structural)' % (note, show(got, an.names)[:200]), where)
-        return
+        return True
     ctx.bad(rule, key, '%s :: got %s, expected %s' % (note, show(got, an.names)[:300], show(want, an.names)[:200]), where)
+    return False
 
 
 def _proj_some(an, v):
@@ -397,17 +398,483 @@ def subst_term(an, t, old, new):
     return t
 
 
-def loco_setters(ctx, G):
-    pass
+def eval_guards(an, f):
+    """is the Ok path feasible after the substitution f (term -> term)?  Returns (feasible?, violated guard text).
+    A guard whose gate decisions all evaluate to their recorded outcome and whose condition evaluates to the rejected
+    constant makes the case infeasible (the update is rejected there)."""
+    def const(t):
+        if t[0] == 'bool':
+            return t[1]
+        if t[0] == 'num':
+            return t[1] != 0
+        return None
+    for g in an.guards:
+        if g.kind == 'assert':
+            continue
+        live = True
+        for c, o in g.gate:
+            if c[0] == 'pathset':
+                live = None; break
+            v = const(f(c))
+            if v is None:
+                live = None; break
+            if v != (o != '0'):
+                live = False; break
+        if live is not True:
+            continue
+        if g.outcome not in ('0', '1', 'otherwise'):
+            continue
+        v = const(f(g.cond))
+        if v is not None and v != (g.outcome != '0'):
+            return False, show(g.cond, an.names)[:120]
+    return True, ''
 
+
+def loco_setters(ctx, G):
+    """arm tables of the locomotive-level setters: on every accepted update
+         (mu' known and mass' known)  =>  force_max' = mu' · mass' · g
+       and the option leaves alone what its doc comment says it leaves alone."""
+    prog = ctx.prog
+    R = 'C20-4.loco'
+    u = ('sym', 'u'); x = ('sym', 'x')
+    # documented effect per option: fields that must keep their value (doc comments of the enums)
+    KEEP = {
+        ('Locomotive::set_force_max', 'Mass'): ['mu'], ('Locomotive::set_force_max', 'UpdateMu'): ['mass'],
+        ('Locomotive::set_force_max', 'SetMuToNone'): ['mass'], ('Locomotive::set_force_max', 'SetMassToNone'): ['mu'],
+        ('Locomotive::set_force_max', 'SetMassAndMuToNone'): [],
+        ('Locomotive::set_mu', 'Mass'): [], ('Locomotive::set_mu', 'ForceMax'): ['mass'], ('Locomotive::set_mu', 'SetMassToNone'): ['force_max'],
+    }
+    NONE_AFTER = {
+        ('Locomotive::set_force_max', 'SetMuToNone'): ['mu'], ('Locomotive::set_force_max', 'SetMassToNone'): ['mass'],
+        ('Locomotive::set_force_max', 'SetMassAndMuToNone'): ['mu', 'mass'], ('Locomotive::set_mu', 'SetMassToNone'): ['mass'],
+    }
+    closed = set_mass_locomotive(ctx, G)
+    for fid, enum, sename, valname, valfield in (('Locomotive::set_force_max', 'ForceMaxSideEffect', 'side_effect', 'force_max', 'force_max'),
+                                                 ('Locomotive::set_mu', 'MuSideEffect', 'mu_side_effect', 'mu', 'mu')):
+        b = ctx.anchor(R, fid)
+        an = analysis_or_fail(ctx, R, b) if b is not None else None
+        td = prog.typedef(enum)
+        if an is None or td is None:
+            continue
+        try:
+            se = an.arg(sename); val = an.arg(valname)
+        except KeyError:
+            ctx.unproved(R, fid, 'parameters %s / %s not found' % (sename, valname), ctx.where(b)); continue
+        w = ctx.where(b)
+        for k, v in enumerate(td.variants):
+            opt = v['name']
+            key = '%s|%s' % (fid, opt)
+            post = {f: _resimp(an, specialize(an.load(P(f), an.exit_state), se, k)) for f in ('force_max', 'mu', 'mass')}
+            # the value being set is stored as given
+            want = val if valfield == 'force_max' else ('some', val)
+            prove_same(ctx, R, key + '|' + valfield, an, post[valfield], want, w, 'option %s stores the new %s as given' % (opt, valfield))
+            for f in KEEP.get((fid, opt), []):
+                prove_same(ctx, R, key + '|%s untouched' % f, an, post[f], pre(f), w, 'option %s leaves %s unchanged' % (opt, f))
+            for f in NONE_AFTER.get((fid, opt), []):
+                prove_same(ctx, R, key + '|%s forgotten' % f, an, post[f], ('none',), w, 'option %s sets %s to None' % (opt, f))
+            if (fid, opt) not in KEEP:
+                ctx.unproved(R, key, 'option %s::%s has no documented-effect row in the rule table (new option?)' % (enum, opt), w)
+            # the invariant on the post-state, for every combination of known / unknown mu and mass before the call
+            tail = tail_call_arm(ctx, an, b, se, k)
+            for muv, mlab in ((('some', u), 'mu known'), (('none',), 'mu unknown')):
+                for mv, xlab in ((('some', x), 'mass known'), (('none',), 'mass unknown')):
+                    def f(t, muv=muv, mv=mv):
+                        t = specialize(t, se, k)
+                        t = bind(an, t, P('mu'), muv)
+                        return bind(an, t, P('mass'), mv)
+                    feas, why = eval_guards(an, f)
+                    ck = '%s|%s, %s' % (key, mlab, xlab)
+                    if not feas:
+                        ctx.ok(R, ck, 'rejected in this case (the Ok path requires %s)' % why, w); continue
+                    F_, MU_, M_ = f(post['force_max']), f(post['mu']), f(post['mass'])
+                    if mv[0] == 'some':
+                        F_ = stored_mass_lemma(ctx, an, b, F_, f, mv[1])
+                    if MU_ == ('none',) or M_ == ('none',):
+                        ctx.ok(R, ck, "mu' or mass' is None after the update: nothing to contradict", w); continue
+                    if MU_[0] == 'some' and M_[0] == 'some':
+                        if tail and closed:
+                            ctx.ok(R, ck, 'the arm ends in set_mass, which establishes force_max\' = mu\'·mass\'·g on every accepted exit (C20-4 <Locomotive as Mass>::set_mass) and nothing is stored afterwards', w)
+                            continue
+                        prove(ctx, R, ck, an, 'eq', T(F_), T(MU_[1]) * T(M_[1]) * T(G), assume=A, where=w, note="[%s, %s, option %s] force_max' = mu'·mass'·g" % (mlab, xlab, opt))
+                    else:
+                        ctx.unproved(R, ck, "mu' / mass' is neither Some nor None: mu' = %s, mass' = %s" % (show(MU_, an.names)[:100], show(M_, an.names)[:100]), w)
+    stale_checks(ctx)
+
+
+def stored_mass_lemma(ctx, an, b, t, f, x):
+    """C20-1 `Locomotive|value`: mass() returns the stored mass whenever one is stored.  Applied to calls of
+    <Locomotive as Mass>::mass on self that see the pre-state of everything mass() reads (no earlier store to it):
+    the payload of the call's result is replaced by the stored mass `x`."""
+    inv = inventory(ctx)
+    cfg = inv.cfg(b)
+    for c in an.calls:
+        if not (c.targets and '<Locomotive as Mass>::mass' in c.targets and c.argvals and c.argvals[0] == ('ref', (('obj', 1),), 'shr') and c.result is not None):
+            continue
+        early = [path for bb, path, val, span in an.stores_log
+                 if path[0] == ('obj', 1) and len(path) > 1 and path[1] in (('f', 'mass'), ('f', 'baseline_mass'), ('f', 'ballast_mass'), ('f', 'loco_type'))
+                 and bb != c.block and c.block in cfg._reach_from(bb)]
+        if early:
+            continue
+        Rr = norm_unwrap(('uf', 'unwrap', ('uf', 'unwrap', f(c.result))))
+        t = subst_term(an, norm_unwrap(t), Rr, x)
+    return t
+
+
+def tail_call_arm(ctx, an, b, se, k):
+    """does the arm `k` of the option switch end with a call of <Locomotive as Mass>::set_mass on self, with no store to
+    a support field afterwards?"""
+    inv = inventory(ctx)
+    cfg = inv.cfg(b)
+    recs = [c for c in an.calls if c.targets and '<Locomotive as Mass>::set_mass' in c.targets and c.argvals and c.argvals[0][0] == 'ref' and c.argvals[0][1] == (('obj', 1),)]
+    recs = [c for c in recs if any(cnd == ('discr', se) and str(k) in str(o).split('|') for cnd, o in c.pc)]
+    if len(recs) != 1:
+        return False
+    after = set()
+    for s_ in cfg.succ[recs[0].block]:
+        after |= cfg._reach_from(s_)
+    for bb, path, val, span in an.stores_log:
+        if bb in after and path[0] == ('obj', 1) and len(path) > 1 and path[1][0] == 'f' and path[1][1] in LOCO_SUPPORT:
+            return False
+    return True
+
+
+def set_mass_locomotive(ctx, G):
+    """<Locomotive as Mass>::set_mass: accepted only with option None; mass' = new mass, else the derived mass;
+    force_max' = mu · (mass() evaluated after the mass was stored) · g, and mass() returns the stored mass whenever one is
+    stored (C20-1 Locomotive|value) — hence force_max' = mu' · mass' · g.  Returns True when the chain is complete."""
+    prog = ctx.prog
+    R = 'C20-4.loco'
+    fid = '<Locomotive as Mass>::set_mass'
+    b = ctx.anchor(R, fid)
+    an = analysis_or_fail(ctx, R, b) if b is not None else None
+    if an is None:
+        return False
+    w = ctx.where(b)
+    ok_all = True
+    se = _param_term(an, 'side_effect', 3)
+    newp = _param_path(an, 'new_mass', 2)
+    # (a) only option None is accepted
+    ga = [g for g in an.guards if not g.gate and ((g.cond == ('eq', se, ('none',)) and g.outcome != '0') or (g.cond == ('ne', se, ('none',)) and g.outcome == '0'))]
+    ok_all &= ctx.check(bool(ga), R, fid + '|option', 'accepted only with MassSideEffect::None (the other options are rejected, not silently reinterpreted)',
+                        'no unconditional guard side_effect == None on the Ok path', w)
+    # (b) mass'
+    dcalls = [c for c in an.calls if c.targets and any(t.endswith('::derived_mass') for t in c.targets) and c.argvals and c.argvals[0] == ('ref', (('obj', 1),), 'shr')]
+    mcalls = [c for c in an.calls if c.targets and '<Locomotive as Mass>::mass' in c.targets and c.argvals and c.argvals[0] == ('ref', (('obj', 1),), 'shr')]
+    if len(dcalls) != 1 or len(mcalls) != 1 or dcalls[0].result is None or mcalls[0].result is None:
+        ctx.unproved(R, fid, 'expected one derived_mass() and one mass() call on self, found %d / %d' % (len(dcalls), len(mcalls)), w)
+        return False
+    D0 = unwrap_dist(dcalls[0].result)
+    postM = an.load(P('mass'), an.exit_state)
+    newv = ('pre', newp)
+    wantM = mk('gamma', ('discr', newv), ('some', ('pre', newp + (('as', 'Some'), ('f', '#0')))), ('some', ('uf', 'unwrap', D0)))
+    ok_all &= prove_same(ctx, R, fid + "|mass'", an, norm_unwrap(postM), norm_unwrap(wantM), w, "mass' = the new mass when given, else the derived mass (which must then be known)")
+    # (c) mu is not written
+    postMU = an.load(P('mu'), an.exit_state)
+    ok_all &= prove_same(ctx, R, fid + '|mu untouched', an, postMU, pre('mu'), w, 'set_mass never changes mu')
+    # (d) force_max' = mu · X · g with X the value returned by mass() called after the mass store
+    postF = an.load(P('force_max'), an.exit_state)
+    X = ('uf', 'unwrap', unwrap_dist(mcalls[0].result)) if unwrap_dist(mcalls[0].result)[0] != 'some' else unwrap_dist(mcalls[0].result)[1]
+    X2 = unwrap_dist(unwrap_dist(mcalls[0].result))
+    okF = False
+    Xc = norm_unwrap(('uf', 'unwrap', ('uf', 'unwrap', mcalls[0].result)))
+    for munw in (('uf', 'unwrap', pre('mu')), pre('mu', '@Some', '#0')):
+        if norm_unwrap(postF) in (mk('mul', mk('mul', munw, Xc), G), mk('mul', munw, mk('mul', Xc, G)), mk('mul', mk('mul', munw, G), Xc)):
+            okF = True
+    ok_all &= ctx.check(okF, R, fid + "|force_max'", "force_max' = mu · (value of self.mass() after the update) · g",
+                        "force_max' = %s" % show(postF, an.names)[:240], w)
+    # (e) the mass() call sees the stored mass: the store dominates the call and nothing it reads is written afterwards
+    inv = inventory(ctx)
+    cfg = inv.cfg(b)
+    mstores = [bb for bb, path, val, span in an.stores_log if path == P('mass')]
+    dom = bool(mstores) and all(cfg.dominates(bb, mcalls[0].block) or bb == mcalls[0].block for bb in mstores[-1:])
+    after = set()
+    for s_ in cfg.succ[mcalls[0].block]:
+        after |= cfg._reach_from(s_)
+    late = [show_store(path) for bb, path, val, span in an.stores_log if bb in after and path[0] == ('obj', 1) and path != P('force_max')]
+    ok_all &= ctx.check(dom and not late, R, fid + '|order', 'self.mass() is evaluated after the mass has been stored and nothing but force_max is stored after it, so by C20-1 (mass() returns the stored mass when one is stored) X = mass\'',
+                        'mass store dominates the call: %s; stores after the call: %s' % (dom, late[:4]), w)
+    return bool(ok_all)
+
+
+def norm_unwrap(t):
+    """push unwrap(..) through Ok/Some constructors and γ/Γ so that equal values print equally"""
+    def f(x):
+        if x[0] == 'uf' and x[1] == 'unwrap' and len(x) == 3 and x[2][0] in ('ok', 'some', 'gamma', 'Gamma'):
+            return unwrap_dist(x[2])
+        return x
+    for _ in range(4):
+        t2 = map_term(t, f)
+        if t2 == t:
+            break
+        t = t2
+    return t
+
+
+def show_store(path):
+    from sa.terms import show_path
+    return show_path(path)
+
+
+def stale_checks(ctx):
+    """a consistency check is never run on a half-updated relation: inside a setter, a call of a checking getter may not
+    be preceded by a store to a field its guard reads while another field of the same relation is stored later"""
+    prog = ctx.prog
+    inv = inventory(ctx)
+    R = 'C20-4.loco'
+    REL = {
+        'Locomotive::force_max': {'force_max', 'mu', 'mass'}, 'Locomotive::mu': {'force_max', 'mu', 'mass'},
+        'Locomotive::check_force_max': {'force_max', 'mu', 'mass'},
+        '<Locomotive as Mass>::mass': {'mass', 'baseline_mass', 'ballast_mass'},
+    }
+    W = inv.writes()
+    calls = inv.calls()
+    n = 0
+    for b in setters(ctx):
+        if not b.fid.startswith('Locomotive::') and 'Locomotive as' not in b.fid:
+            continue
+        cfg = inv.cfg(b)
+        ev = []      # (block, field) direct stores and stores through callees
+        for f in LOCO_SUPPORT:
+            for wb, bn, span, how in W.get(('Locomotive', f), []):
+                if wb is b and how.split(':')[0] in ('assign', 'opassign'):
+                    ev.append((bn, f))
+        for bn, t, callees in calls.get(b.fid, []):
+            tw = inv.transitive_writes([c for c in callees if c != b.fid])
+            for (ty, f) in tw:
+                if ty == 'Locomotive' and f in LOCO_SUPPORT:
+                    ev.append((bn, f))
+        for bn, t, callees in calls.get(b.fid, []):
+            for g in callees:
+                if g not in REL:
+                    continue
+                n += 1
+                rel = REL[g]
+                before = {f for eb, f in ev if f in rel and eb != bn and bn in cfg._reach_from(eb)}
+                after = set()
+                for s_ in cfg.succ[bn]:
+                    after |= cfg._reach_from(s_)
+                later = {f for eb, f in ev if f in rel and eb in after}
+                k = '%s|%s' % (b.fid, g.split('::')[-1])
+                key = k + '|half-updated'
+                if before and (later - before):
+                    ctx.bad(R, key, 'the checking getter %s runs after %s was stored but before %s is: it compares fresh with stale values and rejects valid updates' % (g, sorted(before), sorted(later - before)), ctx.where(b, t.span))
+                else:
+                    ctx.ok(R, key, 'the call of %s sees a relation that is either untouched or completely updated (stored before: %s, stored later: %s)' % (g, sorted(before), sorted(later)), ctx.where(b, t.span))
+    ctx.floor('checking-getter calls inside locomotive setters', n, 3)
+
+
+
+
+LOCO_SUPPORT = ('mass', 'mu', 'force_max', 'baseline_mass', 'ballast_mass')
+_SUPPORT = {}
+
+
+def support(ctx):
+    """{(Type, field)}: the fields the invariant reads (stored mass, intensive / extensive parameters, mu, force_max, ...)"""
+    k = id(ctx.prog)
+    if k in _SUPPORT:
+        return _SUPPORT[k]
+    prog = ctx.prog
+    S = set()
+    for X in components(ctx):
+        bd = prog.by_id.get('<%s as Mass>::derived_mass' % X)
+        bs = prog.by_id.get('<%s as Mass>::set_mass' % X)
+        if bd is None or bs is None or X == 'Locomotive':
+            continue
+        if engine(ctx).analysis(bs).exit_state is None:
+            continue
+        an_d = engine(ctx).analysis(bd)
+        Dv = unwrap_ok(an_d.ret()) if an_d.exit_state is not None else None
+        fl = leaf_fields(ctx, X, Dv) if Dv is not None else None
+        if fl:
+            S |= {(X, 'mass'), (X, fl[0]), (X, fl[1])}
+    for f in LOCO_SUPPORT:
+        S.add(('Locomotive', f))
+    _SUPPORT[k] = S
+    return S
+
+
+def setters(ctx):
+    """the public update entry points of the invariant"""
+    prog = ctx.prog
+    out = []
+    for X in components(ctx):
+        b = prog.by_id.get('<%s as Mass>::set_mass' % X)
+        if b is not None and engine(ctx).analysis(b).exit_state is not None:
+            out.append(b)
+    for fid in ('Locomotive::set_force_max', 'Locomotive::set_mu'):
+        b = prog.by_id.get(fid)
+        if b is not None:
+            out.append(b)
+    return out
+
+
+def own_result_exits(b, cfg, call_block):
+    """Err exits that only forward the failure of the call in `call_block` itself (its `?`): blocks whose from_residual /
+    returned value derives from that call's result.  The callee's own discipline is examined at the callee."""
+    t = b.blocks[call_block].term
+    if t.dest is None:
+        return set()
+    tainted = {t.dest.local}
+    out = set()
+    if t.dest.local == 0:
+        out.add(call_block)
+
+    def ops_locals(rv):
+        res = []
+
+        def rec(x):
+            if isinstance(x, tuple):
+                if len(x) == 2 and x[0] in ('move', 'copy') and hasattr(x[1], 'local'):
+                    res.append(x[1].local)
+                else:
+                    for y in x:
+                        rec(y)
+            elif isinstance(x, list):
+                for y in x:
+                    rec(y)
+            elif hasattr(x, 'local'):
+                res.append(x.local)
+        rec(rv)
+        return res
+    for _ in range(6):
+        changed = False
+        for bn in cfg.reach:
+            blk = b.blocks[bn]
+            for s_ in blk.stmts:
+                if s_.kind == 'assign' and s_.lhs.local not in tainted and any(l in tainted for l in ops_locals(s_.rv)):
+                    if s_.lhs.local != 0 or True:
+                        tainted.add(s_.lhs.local); changed = True
+            tt = blk.term
+            if tt.kind == 'call' and tt.dest is not None and any(l in tainted for l in ops_locals(tuple(tt.args))):
+                if re.search(r'with_context|context|branch|from_residual|map_err|into|from', tt.callee):
+                    if tt.dest.local not in tainted:
+                        tainted.add(tt.dest.local); changed = True
+                    if 'from_residual' in tt.callee and tt.dest.local == 0:
+                        out.add(bn)
+        if not changed:
+            break
+    return out
 
 
 def reject(ctx, comps):
-    pass
+    """a rejected update changes nothing: no store to a support field (direct, or through a callee that writes one) can be
+    followed by an Err exit of the setter"""
+    prog = ctx.prog
+    inv = inventory(ctx)
+    R = 'C20-5.reject'
+    S = support(ctx)
+    W = inv.writes()
+    calls = inv.calls()
+    n = 0
+    for b in setters(ctx):
+        cfg = inv.cfg(b)
+        n += 1
+        # exits that may carry Err: `_0 = Err(..)` / `?` residual blocks, and calls whose Result becomes the return value
+        exits = set(cfg.err_blocks)
+        for bn in cfg.reach:
+            t = b.blocks[bn].term
+            if t.kind == 'call' and t.dest is not None and t.dest.local == 0 and not t.dest.proj and cfg.returns_result:
+                cands = prog.resolve(t.callee)
+                may_fail = not cands or any(inv.cfg(cb).err_blocks or not inv.cfg(cb).returns_result for cb in cands)
+                if may_fail and not re.search(r'::Ok$', re.sub(r'::<.*?>', '', t.callee)):
+                    exits.add(bn)
+        events = []        # (block whose successors matter, key, span)
+        for (ty, fld) in sorted(S):
+            for wb, bn, span, how in W.get((ty, fld), []):
+                if wb is b and how.split(':')[0] in ('assign', 'opassign'):
+                    events.append((bn, '%s.%s' % (ty, fld), span, 'store'))
+        for bn, t, callees in calls.get(b.fid, []):
+            tw = inv.transitive_writes([c for c in callees if c != b.fid])
+            hit = sorted('%s.%s' % k for k in tw if k in S)
+            if hit:
+                events.append((bn, 'call %s' % sorted(callees)[0].split('::')[-1], t.span, 'call writing ' + ', '.join(hit)))
+        seen = set()
+        for bn, key, span, how in events:
+            after = set()
+            for s_ in cfg.succ[bn]:
+                after |= cfg._reach_from(s_)
+            own = own_result_exits(b, cfg, bn) if how.startswith('call') else set()
+            leak = sorted((after & exits) - own)
+            k = '%s|%s' % (b.fid, key)
+            if k in seen:
+                continue
+            seen.add(k)
+            if leak:
+                ctx.bad(R, k, '%s (%s) can be followed by an Err exit (%s): a rejected update leaves the object changed' % (key, how, ', '.join(leak[:3])), ctx.where(b, span))
+            else:
+                ctx.ok(R, k, '%s (%s) is not followed by any Err exit' % (key, how), ctx.where(b, span))
+    ctx.floor('setters examined for mutate-then-reject', n, 6)
+
 
 
 def parsers(ctx):
-    pass
+    """every option of the three side-effect enums can be selected by its own name"""
+    prog = ctx.prog
+    R = 'C20-6.parser'
+    n = 0
+    for fid in sorted(prog.by_id):
+        m = re.match(r'^<(\w*SideEffect) as TryFrom<(?:std::string::)?String>>::try_from$', fid)
+        if not m:
+            continue
+        E = m.group(1)
+        td = prog.typedef(E)
+        b = prog.by_id[fid]
+        an = analysis_or_fail(ctx, R, b)
+        if an is None or td is None:
+            continue
+        n += 1
+        r = an.ret()
+        if r[0] != 'ok':
+            ctx.unproved(R, E, 'parser result is not Ok(decision tree): %s' % show(r, an.names)[:160], ctx.where(b)); continue
+        table = {}        # variant -> set of selecting literals
+        bad = []
+
+        def leaves(t, lit):
+            if t[0] == 'gamma':
+                c = t[1]
+                l2 = None
+                if c[0] == 'eq':
+                    for side in (c[1], c[2]):
+                        if side[0] == 'str':
+                            l2 = side[1].strip('"')
+                if l2 is None:
+                    bad.append('condition %s is not a comparison with a string literal' % show(c, an.names)[:80])
+                leaves(t[2], l2)
+                leaves(t[3], None)          # the last arm is selected by the guard below
+                return
+            if t == ('none',):
+                v = 'None'
+            elif t[0] == 'variant':
+                v = t[1].split('::')[-1]
+            else:
+                bad.append('leaf %s is not a variant' % show(t, an.names)[:80]); return
+            table.setdefault(v, set()).add(lit)
+        leaves(r[1], None)
+        # the default arm is Err: the last variant is selected by the surviving guard (string == literal)
+        last = None
+        for g in an.guards:
+            c = g.cond
+            if c[0] == 'eq' and g.outcome != '0':
+                for side in (c[1], c[2]):
+                    if side[0] == 'str':
+                        last = side[1].strip('"')
+        for v, lits in table.items():
+            if None in lits:
+                lits.discard(None); lits.add(last)
+        names = [v['name'] for v in td.variants]
+        for v in names:
+            lits = table.get(v)
+            if not lits:
+                ctx.bad(R, '%s::%s' % (E, v), 'no string selects the option %s::%s: it cannot be chosen through the string interface' % (E, v), ctx.where(b))
+            elif lits != {v}:
+                ctx.bad(R, '%s::%s' % (E, v), 'option %s::%s is selected by %s, not by its own name' % (E, v, sorted(str(x) for x in lits)), ctx.where(b))
+            else:
+                ctx.ok(R, '%s::%s' % (E, v), 'the string "%s" selects %s::%s' % (v, E, v), ctx.where(b))
+        for x in bad:
+            ctx.unproved(R, E, x, ctx.where(b))
+    ctx.floor('side-effect option parsers', n, 3)
+
 
 
 ACC = ('pre', (('val', 2),))
@@ -603,4 +1070,40 @@ def _ok_leaves(t, out):
 
 
 def writers(ctx):
-    pass
+    """who may store into the fields the invariant reads: the mass-interface methods of the owning type and the
+    locomotive-level setters examined above; constructors / Default / serde are exempt (load is checked by init -> mass())"""
+    prog = ctx.prog
+    inv = inventory(ctx)
+    R = 'C20-8.writers'
+    examined = {b.fid for b in setters(ctx)}
+    n = 0
+    for (ty, fld) in sorted(support(ctx)):
+        allowed = set(examined) | {'<%s as Mass>::expunge_mass_fields' % ty, '<%s as Mass>::set_mass_specific_property' % ty}
+        ws = inv.writers(ty, fld, hows=('assign', 'opassign', 'lend'))
+        n += 1
+        extra = sorted(b.fid for b in ws if b.fid not in allowed and not is_generated_setter(b))
+        gen = sorted(b.fid for b in ws if is_generated_setter(b))
+        if extra:
+            ctx.bad(R, '%s.%s' % (ty, fld), '%s.%s is also written by %s, outside the setters whose arms are proved' % (ty, fld, extra), ctx.where(prog.by_id[extra[0]]))
+        else:
+            ctx.ok(R, '%s.%s' % (ty, fld), 'written only by %s%s' % (sorted(b.fid for b in ws if b.fid in allowed) or 'constructors / deserialisation',
+                                                                    ('; generated raw setters (pyo3): %s — getters re-check' % gen) if gen else ''))
+    ctx.floor('support fields inventoried', n, 14)
+    # loading: which init() already evaluate the checking getter (siblings compared; listed, not judged — a file with
+    # contradictory redundant mass data that is accepted at load is still refused by mass() at first use, C20-1)
+    for X in [b.fid.split(' as ')[0].lstrip('<') for b in setters(ctx) if ' as Mass>::set_mass' in b.fid]:
+        fid = '<%s as SerdeAPI>::init' % X
+        b = prog.by_id.get(fid)
+        if b is None:
+            ctx.info(R, X + '|init', '%s has no init(): redundant mass data are first checked by mass() at use' % X); continue
+        an = engine(ctx).analysis(b)
+        if an.exit_state is None:
+            continue
+        ok = any(c.targets and '<%s as Mass>::mass' % X in c.targets and c.argvals and c.argvals[0][0] == 'ref' and c.argvals[0][1] == (('obj', 1),) and not c.pc for c in an.calls)
+        ctx.info(R, X + '|init', ('init() evaluates mass(): contradictory redundant mass data are rejected on load' if ok else
+                                  'init() does not evaluate mass() (its siblings do): contradictory redundant mass data are first refused by mass() at use'), ctx.where(b))
+
+
+def is_generated_setter(b):
+    return bool(re.search(r'attr\(altrios_api\)|::__pymethod|set_\w+_err$', b.fid)) and 'pyo3' in (getattr(b, 'cfgs', None) or ['pyo3'])
+
